@@ -71,6 +71,10 @@ func runC05(r *Run) {
 	var pred *strategy.PredicatePartitionStrategy
 	ks := []int{1 + t.Intn(16, "k0"), t.Intn(12, "k1")}
 	names := []string{"a", "b"}
+	addLater := (kind == "lookup" || kind == "predicate") && t.Chance(50, "add-partition-later")
+	kc := 1 + t.Intn(4, "k-added")
+	addAfter := time.Duration(t.Intn(6, "add-after")) * time.Nanosecond
+	added := false
 	switch kind {
 	case "simple":
 		simple = strategy.NewSimpleStrategyWithMetricRegistry(stratInit, reg)
@@ -125,6 +129,7 @@ func runC05(r *Run) {
 		return
 	}
 	s := r.NewSched()
+	s.LagPct = []int{0, 10, 25}[t.Intn(3, "lag-pct")] // F-lag: DefaultLimiter has no select-based blocking
 	getLimit := func() (int, bool) {
 		var n int
 		ok := RootCall(func() {
@@ -155,7 +160,11 @@ func runC05(r *Run) {
 			s.Fail("enforced-limit-stale", kind, "%s: the strategy enforces limit %d but the algorithm's estimate is %d (floored: %d)", where, got, est, want)
 			return false
 		}
-		for i, n := range names {
+		chk, chkK := names, ks
+		if added {
+			chk, chkK = append(append([]string{}, names...), "c"), append(append([]int{}, ks...), kc)
+		}
+		for i, n := range chk {
 			if lookup == nil && pred == nil {
 				break
 			}
@@ -170,8 +179,12 @@ func runC05(r *Run) {
 			}) || e != nil {
 				return true
 			}
-			if w := share(want, ks[i]); bl != w {
-				s.Fail("share-stale", kind, "%s: partition %s (fraction %d/32) has share %d but the enforced limit %d gives max(1, ceil(limit x fraction)) = %d", where, n, ks[i], bl, want, w)
+			if w := share(want, chkK[i]); bl != w {
+				key := kind
+				if n == "c" {
+					key = kind + "/added-partition"
+				}
+				s.Fail("share-stale", key, "%s: partition %s (fraction %d/32) has share %d but the enforced limit %d gives max(1, ceil(limit x fraction)) = %d", where, n, chkK[i], bl, want, w)
 				return false
 			}
 		}
@@ -251,6 +264,20 @@ func runC05(r *Run) {
 			}
 		}))
 	}
+	if addLater {
+		tasks = append(tasks, s.Go("partition-adder", func(tk *Task) {
+			tk.Sleep(addAfter)
+			tk.Begin("AddPartition", "c")
+			if lookup != nil {
+				lookup.AddPartition("c", strategy.NewLookupPartitionWithMetricRegistry("c", float64(kc)/32, 1, reg))
+			} else {
+				pred.AddPartition(strategy.NewPredicatePartitionWithMetricRegistry("c", float64(kc)/32, matchers.StringPredicateMatcher("c", false), reg))
+			}
+			added = true
+			tk.End(nil)
+			r.Fault("F-part:add")
+		}))
+	}
 	s.OnStable = func() {
 		for _, tk := range tasks {
 			if tk.MidOp() {
@@ -288,6 +315,9 @@ func runC05(r *Run) {
 				return
 			}
 		}
+	}
+	if s.Lags > 0 {
+		r.Fault("F-lag")
 	}
 	if changes >= 2 {
 		r.Nontrivial = true
